@@ -581,6 +581,17 @@ def joinWith (st : Store) (t rhs : Rel) (pred : Pred) (backtrack transfer : Bool
     -- Join.partial: min_columns <= fix.columns (min_columns is empty here)
     applyOp st defaultFuel (.pj ⟨j, rhs, false⟩) t { backtrack := backtrack, transfer := transfer }
 
+/-- `Join(pred, min_columns=S, max_columns=S).partial(rhs).apply(t, backtrack=…, transfer=…)`:
+a join with explicitly given common columns. -/
+def joinOn (st : Store) (t rhs : Rel) (pred : Pred) (common : Cols) (backtrack transfer : Bool) :
+    Except Err Res :=
+  match JoinOp.make pred common (some common) with
+  | .error e => .error e
+  | .ok j =>
+    -- `Join.partial`: `ColumnError` unless `min_columns <= fix.columns`
+    if !(common.subset rhs.columns) then .error .column
+    else applyOp st defaultFuel (.pj ⟨j, rhs, false⟩) t { backtrack := backtrack, transfer := transfer }
+
 /-- `relation.chain(rhs)`. -/
 def chainWith (st : Store) (t rhs : Rel) : Except Err BRes :=
   binaryApply st defaultFuel .chain t rhs
